@@ -336,6 +336,11 @@ pub fn directed() -> Vec<(&'static str, Vec<&'static str>)> {
         ("compile-error-in-block", vec!["stel a = 1", "{ stel q = 2; onbekend }", "stel r = 3; [a, r]"]),
         ("compile-error-in-function", vec!["stel a = 1", "functie h(p) { stel l = p; onbekend }", "stel r = 3; [a, r]"]),
         ("compile-error-in-loop", vec!["stel a = 1", "zolang a < 3 { a += 1; onbekend }", "stop", "a"]),
+        ("compile-error-in-block-shadowing", vec!["stel a = 1", "als a == 1 { stel a = 50; onbekend }", "a", "a + 1", "functie f() { a * 10 }", "f()"]),
+        ("compile-error-in-block-new-name", vec!["stel a = 1", "{ stel nieuw = 2; onbekend }", "nieuw"]),
+        ("compile-error-after-declaration", vec!["stel a = 1", "stel b = 2; onbekend", "b", "stel c = 3; [a, c]"]),
+        ("compile-error-in-nested-function", vec!["stel a = 1", "functie buiten() { functie binnen(q) { stel a = 2; onbekend } }", "a", "functie g(x) { x + a }; g(1)"]),
+        ("misplaced-stop-after-declaration", vec!["stel a = 1", "stel d = 4; stop", "d", "a"]),
         ("parse-error-then-ok", vec!["stel a = 1", "stel = 5", "a + 1"]),
         ("unclosed-block", vec!["stel a = 1", "{ stel a = 2", "a"]),
         ("runtime-error-then-ok", vec!["stel a = 1; stel b = [1, 2]", "a = a + 1; b[9]; a = a + 100", "[a, b]"]),
@@ -354,6 +359,7 @@ fn random_session(r: &mut Rng) -> Vec<Line> {
     let mut ints: Vec<String> = vec![];
     let mut arrs: Vec<String> = vec![];
     let mut fresh = 0;
+    let mut pending_probe: Option<String> = None;
     for _ in 0..n {
         let pick_int = |r: &mut Rng, ints: &Vec<String>| -> String {
             if ints.is_empty() {
@@ -362,7 +368,7 @@ fn random_session(r: &mut Rng) -> Vec<Line> {
                 ints[r.below(ints.len() as u64) as usize].clone()
             }
         };
-        let k = r.below(16);
+        let k = r.below(21);
         let text = match k {
             0 | 1 => {
                 fresh += 1;
@@ -405,6 +411,26 @@ fn random_session(r: &mut Rng) -> Vec<Line> {
                 let g = pick_int(r, &ints);
                 format!("print(\"deel\"); {} = 3; {} = {} / 0; {} = 4", g, g, g, g)
             }
+            // compile errors inside an open block / branch / loop / function, after a declaration that shadows a
+            // global or introduces a new name: nothing of it may stay visible
+            16 => {
+                fresh += 1;
+                let shadow = if ints.is_empty() || r.chance(1, 3) { format!("z{}", fresh) } else { pick_int(r, &ints) };
+                pending_probe = Some(shadow.clone());
+                match r.below(4) {
+                    0 => format!("{{ stel {} = 99; onbekend_{} }}", shadow, fresh),
+                    1 => format!("als ja {{ stel {} = 98; {{ onbekend_{} }} }}", shadow, fresh),
+                    2 => format!("stel teller = 0; zolang teller < 1 {{ teller += 1; stel {} = 97; onbekend_{} }}", shadow, fresh),
+                    _ => format!("functie kapot(p) {{ stel {} = 96; onbekend_{} }}", shadow, fresh),
+                }
+            }
+            17 | 18 => match pending_probe.take() {
+                // read the name a failed line tried to declare / shadow
+                Some(n) => n,
+                None => format!("{} + 1", pick_int(r, &ints)),
+            },
+            19 => format!("stel v{} = 5; stop", fresh),
+            20 => "stel teller = 0; zolang teller < 2 { teller += 1; als teller > 5 { stel q = [ } }".to_string(),
             _ => format!("{} + 1", pick_int(r, &ints)),
         };
         // now and then cut the line after k instructions
